@@ -1091,6 +1091,32 @@ def split_call(text):
     return name, args
 
 
+CONST_VALUES = {}        # short name -> value of every named integer constant rendered so far
+
+
+def same_text(a, b):
+    """Two rendered expressions are the same if they are equal once named integer constants are replaced by their values
+    (`x & 1` and `x & FSYNC_FDATASYNC` with FSYNC_FDATASYNC == 1 are the same expression)."""
+    if a == b:
+        return True
+    if not isinstance(a, str) or not isinstance(b, str):
+        return False
+
+    def val(t):
+        def f(m):
+            v = CONST_VALUES.get(m.group(0))
+            return str(v) if v is not None else m.group(0)
+        t = re.sub(r"\b[A-Z][A-Z0-9_]{2,}\b", f, t)
+        # has(x, F) for a single flag F is written BitAnd-free in canonical form; numbers compare as numbers
+        return t
+    za, zb = val(a), val(b)
+    if za == zb:
+        return True
+    # a defaulted integer / integer-array field is a zeroed field: `..Default::default()` vs `padding: 0, spare: [0; 6]`
+    zero = re.compile(r"^(k\(default\)|0|\[0; \d+\])$")
+    return bool(zero.match(za) and zero.match(zb))
+
+
 def fact(text):
     """Canonical text of a comparison written in any orientation: fact('Gt(a, b)') == 'Lt(b, a)'."""
     sc = split_call(text)
@@ -1241,6 +1267,8 @@ def render(e, body=None, roots=None, depth=0, short=False, vfx=None):
             sp = split_path(e[3])
             if sp[-1] == "{{constant}}" and len(sp) >= 3:
                 return "%s::%s" % (sp[-3], sp[-2])
+            if isinstance(e[1], int) and not isinstance(e[1], bool):
+                CONST_VALUES[sp[-1]] = e[1]
             return sp[-1]
         if t == "C":
             name = shortname(e[1])
